@@ -697,3 +697,4 @@ class BareScriptParserError(Exception):
         self.line = line
         self.column_number = column_number
         self.line_number = line_number
+        self.prefix = prefix
